@@ -17,6 +17,9 @@ Targets == { [abs |-> FALSE, comps |-> <<"..", "out">>], [abs |-> TRUE, comps |-
 Entries == { [comps |-> p, kind |-> "file", data |-> "new", target |-> [abs |-> FALSE, comps |-> <<>>]] : p \in Paths }
            \cup { [comps |-> p, kind |-> "dir", data |-> "", target |-> [abs |-> FALSE, comps |-> <<>>]] : p \in Paths }
            \cup { [comps |-> p, kind |-> "link", data |-> "", target |-> t] : p \in {<<"a">>, <<"b">>, <<".">>, <<"c.tmp">>}, t \in Targets }
+           \* links *below* a possible link: removing what is there and planting a link are effects as well
+           \cup { [comps |-> p, kind |-> "link", data |-> "", target |-> t] : p \in {<<"a", "victim">>, <<"a", "planted">>},
+                                                                             t \in {[abs |-> FALSE, comps |-> <<"b">>], [abs |-> TRUE, comps |-> <<"out", "new2">>]} }
            \cup { [comps |-> <<"a">>, kind |-> "other", data |-> "", target |-> [abs |-> FALSE, comps |-> <<>>]] }
 VARIABLES fs, todo, ok
 Init == fs = Fs0 /\ ok = TRUE /\ todo \in UNION { [1..n -> Entries] : n \in 1..MaxEntries }
